@@ -40,12 +40,14 @@ Class bilinear := {
   junk : (F * T1) -> (F * T2) -> F;
 }.
 
+(* points: (discrete log in the prime-order subgroup, component outside it) *)
+Notation E1 := (prod F T1).
+Notation E2 := (prod F T2).
+
 Section Bilinear.
 Context {B : bilinear}.
 Add Ring FRing : Fring.
 
-Definition E1 : Type := (F * T1)%type.
-Definition E2 : Type := (F * T2)%type.
 
 Definition O1 : E1 := (f0, t1_0).
 Definition O2 : E2 := (f0, t2_0).
